@@ -141,6 +141,27 @@ func checkCombinator(p *load.Program, s *oblig.Set, fn *ssa.Function, parserT ty
 		variants = []int{1, 2, 3}
 	}
 	var all []*pathInfo
+	spans := map[string]bool{}
+	defer func() {
+		if name != "Accept" {
+			return
+		}
+		k := "combinator.Accept / error spans are token or lexer spans"
+		okSpan := len(spans) > 0
+		var list []string
+		for sp := range spans {
+			list = append(list, sp)
+			if sp != "input.From() .. input.To()" && sp != "From() .. To()" {
+				okSpan = false
+			}
+		}
+		sort.Strings(list)
+		if okSpan {
+			s.OK("X7", k, pos, strings.Join(list, "; "))
+		} else {
+			s.Bad("X7", k, pos, "a parse error must carry the span of the offending token (tok.From(), tok.To()) or the lexer's current span (input.From(), input.To()) unchanged, so that it lies inside the input; found "+strings.Join(list, "; "))
+		}
+	}()
 	for _, nvar := range variants {
 		o := &absint.Oracle{}
 		for iter := 0; iter < 20000; iter++ {
@@ -274,6 +295,21 @@ func checkCombinator(p *load.Program, s *oblig.Set, fn *ssa.Function, parserT ty
 			default:
 				pi.end = "return"
 				if tu, ok := res.(*absint.Tuple); ok && len(tu.E) == 2 {
+					if ep, ok := tu.E[1].(*absint.Ptr); ok && name == "Accept" {
+						if es, ok := ep.Cell.V.(*absint.Struct); ok {
+							est := es.T.Underlying().(*types.Struct)
+							from, to := "", ""
+							for i := 0; i < est.NumFields(); i++ {
+								switch est.Field(i).Name() {
+								case "from":
+									from = absint.Key(es.F[i])
+								case "to":
+									to = absint.Key(es.F[i])
+								}
+							}
+							spans[from+" .. "+to] = true
+						}
+					}
 					pi.retRes = absint.Key(tu.E[0])
 					if absint.IsNil(tu.E[1]) {
 						pi.retErr = "nil"
